@@ -1039,8 +1039,11 @@ class HttpPayloadParser:
                         i = chunk.find(CHUNK_EXT, 0, pos)
                         if i >= 0:
                             size_b = chunk[:i]  # strip chunk-extensions
-                            # Verify no LF in the chunk-extension
-                            if b"\n" in (ext := chunk[i:pos]):
+                            # Verify no LF (and, when lines end in CRLF, no bare CR)
+                            # in the chunk-extension
+                            if b"\n" in (ext := chunk[i:pos]) or (
+                                not self._lax and b"\r" in ext
+                            ):
                                 exc = TransferEncodingError(
                                     f"Unexpected LF in chunk-extension: {ext!r}"
                                 )
